@@ -285,6 +285,10 @@ def py_is(it, a, b):
             return to_v(it, a if is_v(a) else b) == to_v(it, o)
         return False
     if is_z3(a) or is_z3(b):
+        o = b if is_z3(a) else a
+        if isinstance(o, (Sentinel, Closure, BoundMethod, ModelFn, ClassObj, TypeObj, Instance, MList, MSet)) or \
+                type(o).__name__ in ("NDArr", "DType"):
+            return False        # an int/bool scalar is never one of these objects
         raise Unsupported("identity of symbolic scalars")
     return a is b
 
@@ -547,11 +551,14 @@ def make_set(it, elems):
 
 def make_set_from_seq(it, s):
     s2 = s
+    elems = list(s.items) if isinstance(s, PyList) else None
 
     def mem(x, s2=s2):
         r = seq_contains(it, s2, x) if not isinstance(s2, PyList) else contains(it, s2.items, x)
         return zbool(r) if not isinstance(r, bool) else z3.BoolVal(r)
-    return MSet(it.ctx, SSet(mem))
+    ms = MSet(it.ctx, SSet(mem))
+    ms.elems = elems       # creation-time elements (used for len() of a freshly built set)
+    return ms
 
 
 def unpack(it, v, n):
@@ -587,6 +594,17 @@ def py_len(it, x):
             return b.pyvc_len(it)
     if isinstance(x, SymKw):
         return conc(x.keys.len)
+    if isinstance(x, MSet) and getattr(x, "elems", None) is not None:
+        # number of distinct elements of a small concrete collection
+        total = 0
+        seen = []
+        for e in x.elems:
+            dup = False
+            for s_ in seen:
+                dup = or_(it, dup, py_eq(it, s_, e))
+            total = add(total, 0 if dup is True else (1 if dup is False else z3.If(dup, 0, 1)))
+            seen.append(e)
+        return total
     if isinstance(x, GenValue):
         raise PyRaise("TypeError", "len of generator")
     if hasattr(x, "pyvc_len"):
@@ -1202,8 +1220,7 @@ def _obj_getattribute(it, args, kwargs):
     obj, name = args
     if is_z3(name):
         raise Unsupported("symbolic attribute name")
-    saved = it.inline_getattribute
-    return it.instance_getattr(obj, name)
+    return it.instance_getattr(obj, name, plain=True)
 
 
 def _obj_setattr(it, args, kwargs):
@@ -1351,6 +1368,18 @@ def _min(it, args, kwargs):
 
 
 def _max(it, args, kwargs):
+    if len(args) == 1:
+        kind, coll = iter_of(it, args[0])
+        if kind != "concrete":
+            raise Unsupported("max over a symbolic collection")
+        if not coll:
+            if "default" in kwargs:
+                return kwargs["default"]
+            raise PyRaise("ValueError", "max() arg is an empty sequence")
+        m = coll[0]
+        for x in coll[1:]:
+            m = _max(it, [m, x], {})
+        return m
     if len(args) == 2 and is_intlike(args[0]) and is_intlike(args[1]):
         a, b = args
         if isinstance(a, int) and isinstance(b, int):
@@ -1675,7 +1704,7 @@ def make_builtins(it):
         "classmethod": ModelFn("classmethod", _classmethod), "staticmethod": ModelFn("staticmethod", _staticmethod),
         "type": ModelFn("type", _type), "dir": ModelFn("dir", _dir), "next": ModelFn("next", _next), "iter": ModelFn("iter", _iter),
         "sorted": ModelFn("sorted", _sorted),
-        "int": TypeObj("int"), "str": TypeObj("str"), "bool": TypeObj("bool"), "float": TypeObj("float"),
+        "bytes": TypeObj("bytes"), "int": TypeObj("int"), "str": TypeObj("str"), "bool": TypeObj("bool"), "float": TypeObj("float"),
         "object": TypeObj("object", methods=dict(OBJECT_METHODS)),
         "True": True, "False": False, "None": None,
         "TypeError": TypeObj("TypeError"), "ValueError": TypeObj("ValueError"),
